@@ -66,5 +66,21 @@ class RefTable:
         return True
 
 
-def render_table(entries: list[tuple]) -> str:
+NOISE_LINES = ["", ";43=C", "# 9A=ba", "// 7E=~", "; table for the script", "   ", ";", "#FF=x", "; a=b"]
+
+
+def render_table(entries: list[tuple], noise_seed: int | None = None) -> str:
+    """With `noise_seed`: blank lines and commented-out lines (they start with ; # or //, not with a hex code) between the entries."""
+    if noise_seed is not None:
+        import random
+
+        rng = random.Random(noise_seed)
+        out = []
+        for i, e in enumerate(entries):
+            if rng.random() < 0.3:
+                out.append(rng.choice(NOISE_LINES) + "\n")
+            out.append(f"{e[0].hex().upper() if i % 2 else e[0].hex()}{':%d' % e[2] if len(e) > 2 and e[2] else ''}={e[1]}\n")
+        if rng.random() < 0.5:
+            out.append(rng.choice(NOISE_LINES) + "\n")
+        return "".join(out)
     return "".join(f"{e[0].hex().upper() if i % 2 else e[0].hex()}{':%d' % e[2] if len(e) > 2 and e[2] else ''}={e[1]}\n" for i, e in enumerate(entries))
